@@ -265,7 +265,7 @@ def _anf_inv(c, A, K):
     return z3.And(UInv(c, S), Fresh(c, S), _edges_untouched(c, S, S0), _nodes_only_added(c, S, S0))
 
 
-from contracts.common import anf_post, nodes_of  # noqa: E402
+from contracts.common import setter_loop, setter_post, anf_post, nodes_of  # noqa: E402
 
 
 def _anf_groups(c, A, K):
@@ -379,9 +379,10 @@ def _sna_inv(c, A, K):
 
 
 s = std(contract(H + "set_node_attributes", [("self", "net:H"), ("values", "val"), ("name", "val", None)]))
-s.loop("for n, v in values.items()", _sna_inv)
-s.loop("for n in self", _sna_inv)
-s.loop("for n, d in values.items()", _sna_inv)
+s.loop("for n, v in values.items()", setter_loop("node", "dv", _sna_inv))
+s.loop("for n in self", setter_loop("node", "const", _sna_inv))
+s.loop("for n, d in values.items()", setter_loop("node", "dd", _sna_inv))
+s.ens("documented-effect", ("C05",), setter_post("node"))
 s.ens_all("structure-unchanged", ("C05",), lambda c, A, R: z3.And(_structure_same(c, R.S, A.S0), edge_attrs_same_on(c, R.S, A.S0)))
 s.exc("XGIError")
 s.exc("TypeError")
@@ -393,9 +394,10 @@ def _sea_inv(c, A, K):
 
 
 s = std(contract(H + "set_edge_attributes", [("self", "net:H"), ("values", "val"), ("name", "val", None)]))
-s.loop("for e, value in values.items()", _sea_inv)
-s.loop("for e in self._edge", _sea_inv)
-s.loop("for e, d in values.items()", _sea_inv)
+s.loop("for e, value in values.items()", setter_loop("edge", "dv", _sea_inv))
+s.loop("for e in self._edge", setter_loop("edge", "const", _sea_inv))
+s.loop("for e, d in values.items()", setter_loop("edge", "dd", _sea_inv))
+s.ens("documented-effect", ("C05",), setter_post("edge"))
 s.ens_all("structure-unchanged", ("C05",), lambda c, A, R: z3.And(_structure_same(c, R.S, A.S0), node_attrs_same_on(c, R.S, A.S0)))
 s.exc("XGIError")
 s.exc("TypeError")
